@@ -662,6 +662,63 @@ class State:
                 return
 
     # ---- lattice -----------------------------------------------------------
+    def _option_payloads(self, other):
+        """`Some(x)` / `Ok(x)` on one side, `None` / `Err(_)` on the other: the payload place does not exist on the second side, so
+        what the first side knows about it holds vacuously there.  Returns the two states with the payload facts on both
+        (and the value as 'maybe some'), or None when there is nothing to do."""
+        todo = []
+        for side, oth in ((self, other), (other, self)):
+            for p, v in side.sym.items():
+                if v[0] == "opt" and v[1] in ("some", "cond") and oth.sym.get(p) == ("opt", "none"):
+                    q = None
+                    for k in list(side.sym) + [(t[1], t[2]) for t in side.iv if t[0] == "v"]:
+                        if k[0] == p[0] and len(k[1]) == len(p[1]) + 2 and k[1][:len(p[1])] == p[1] and isinstance(k[1][len(p[1])], tuple) \
+                                and k[1][len(p[1])][0] == "dc" and k[1][-1] == "0":
+                            q = k
+                    pay = v[2] if v[1] == "some" else v[3]
+                    if q is not None and pay is not None and pay[0] == "n":
+                        todo.append((side is self, p, q, pay))
+        if not todo:
+            return None
+        a, b = self.copy(), other.copy()
+        for first, p, q, pay in todo:
+            side, oth = (a, b) if first else (b, a)
+            P = ("v", q[0], q[1])
+            me = ("n", P, 0)
+            if pay[1] != P:
+                side.sym.pop(q, None)
+                if pay[1] is None:
+                    side.set_iv(P, pay[2], pay[2])
+                else:
+                    side.add_le(me, pay, 0, _lin=False)
+                    side.add_le(pay, me, 0, _lin=False)
+                    i_ = side.val_iv(pay)
+                    side.set_iv(P, i_[0], i_[1])
+                    # what the payload's source is related to, said of the payload itself
+                    for y in {t for k in side.rel for t in k}:
+                        if y == P or y == pay[1]:
+                            continue
+                        d1 = side.bound_diff(P, y)
+                        if d1 is not None and abs(d1) <= (1 << 20):
+                            side.rel[(P, y)] = min(d1, side.rel.get((P, y), d1))
+                        d2 = side.bound_diff(y, P)
+                        if d2 is not None and abs(d2) <= (1 << 20):
+                            side.rel[(y, P)] = min(d2, side.rel.get((y, P), d2))
+            newv = ("opt", "cond", ("unknown",), me)
+            side.sym[p] = newv
+            oth.sym[p] = newv
+            pref = q[1][:-1]
+            for t, i_ in list(side.iv.items()):
+                if t[1] == q[0] and t[2][:len(pref)] == pref:
+                    oth.iv[t] = i_
+            for (x, y), c in list(side.rel.items()):
+                if (x[1] == q[0] and x[2][:len(pref)] == pref) or (y[1] == q[0] and y[2][:len(pref)] == pref):
+                    oth.rel[(x, y)] = c
+            for k, w in list(side.sym.items()):
+                if k[0] == q[0] and k[1][:len(pref)] == pref:
+                    oth.sym[k] = w
+        return a, b
+
     def join(self, other):
         """least upper bound (in place on a copy); returns new State"""
         if self.bottom:
@@ -674,6 +731,9 @@ class State:
             return other.copy()
         if other.bottom:
             return self.copy()
+        pre = self._option_payloads(other)
+        if pre is not None:
+            return pre[0].join(pre[1])
         s = State()
         s.dirty = self.dirty | other.dirty
         s.taint = self.taint | other.taint
